@@ -33,6 +33,9 @@ pub struct Acc {
     pub thorough: bool,
     /// (case seed, digest) pairs compared across processes by the orchestrator
     pub digests: Vec<(u64, u64)>,
+    /// append-only side file: one JSON line per recorded violation, written as it happens, so
+    /// that the findings of a shard that is later killed (stuck case) are not lost
+    pub violation_log: Option<String>,
 }
 
 impl Acc {
@@ -59,6 +62,17 @@ impl Acc {
         if *n <= 3 && self.violations.len() < 60 {
             if self.verbose {
                 eprintln!("VIOLATION seed={case_seed} variant={variant} {} :: {}", f.signature, f.detail);
+            }
+            if let Some(path) = &self.violation_log {
+                use std::io::Write;
+                if let Ok(mut fh) = std::fs::OpenOptions::new().create(true).append(true).open(path) {
+                    let _ = writeln!(
+                        fh,
+                        "{}",
+                        json!({"case_seed": case_seed.to_string(), "index": self.cur_index.to_string(), "variant": variant,
+                               "signature": f.signature, "detail": f.detail, "case": case})
+                    );
+                }
             }
             self.violations.push(ViolationRec {
                 case_seed,
